@@ -112,6 +112,13 @@ def check_row(type_, v, bs, t):
             return how + '/eq', 'decoded != original'
         if any(type(x) is not int for k, x in dv.items() if k not in ('type', 'time', 'data')):
             return how + '/type', 'non-int attribute in %r' % (dv,)
+        # the decoded message belongs to the caller: stamping it must not show up anywhere else
+        try:
+            d.time = 424242
+        except Exception as e:
+            return how + '/time-assign', 'assigning time on the decoded message raised %r' % (e,)
+    if m.time != t or type(m.time) is not type(t):
+        return 'aliasing', 'the original message changed when a decoded one was modified'
     return None
 
 
@@ -122,6 +129,8 @@ def worker(lines):
         type_, v, bs = parse_row(ints)
         t = TIMES[(sum(ints) + len(ints)) % len(TIMES)]
         r = check_row(type_, v, bs, t)
+        if r is None and t != 0 and (len(bs) <= 2 or sum(ints) % 4 == 0):
+            r = check_row(type_, v, bs, 0)        # the default time, too
         out['n'] += 1
         out['counts'][type_] = out['counts'].get(type_, 0) + 1
         if r and len(out['viol']) < 20:
